@@ -27,6 +27,11 @@ Proof. vm_compute. reflexivity. Qed.
 
 Lemma no_class_skipped : forallb (fun ac => negb (name_skipped ac)) (map mc_name Gen_Members.M) = true.
 Proof. vm_compute. reflexivity. Qed.
+
+(* the argument check of the factories tests a keyword by membership in the LIST of member names (what info() reports), as the
+   model does - not against a joined string / by substring (translators/tr_supersig.py reads the real statements) *)
+Lemma arg_check_is_list_membership : arg_check_okb Gen_Members.arg_check = true.
+Proof. vm_compute. reflexivity. Qed.
 """
 
 ANY6 = ["Annotation", "CellSet", "ForwardTransition", "ReverseTransition", "ReactionScheme", "Region"]
@@ -109,6 +114,36 @@ def table_findings(ck, mir, S):
 
 
 # ------------------------------------------------------------------------------------------------ real introspection
+def acceptance(ck, mir, res):
+    """"the members reported by info() are exactly the keywords the factory accepts": every name info() lists is accepted, every
+    keyword that merely resembles member names (substrings, single letters, joined names) is refused"""
+    for r in res.get("acceptance") or []:
+        c = r["cls"]
+        if "error" in r:
+            ck.witness("C11:introspection-raises", "acceptance run raised: " + r["error"], input={"class": c})
+            continue
+        ck.count(r["n_members"] + r["n_nonmembers"], nontrivial_key="accept:" + c if r["n_nonmembers"] else None)
+        ck.tally("factory-accepts-info-member", r["n_members"] - len(r["members_refused"]))
+        ck.tally("factory-refuses-derived-non-member", r["n_nonmembers"] - r.get("nonmembers_accepted_count", 0))
+        refused = [x for x in r["members_refused"] if not (x[0] == "__ANY__" and c in ANY6)]
+        if len(refused) != len(r["members_refused"]):
+            ck.witness("C11:any-member-named-__ANY__", "%s: info() reports __ANY__, the constructor accepts anytypeobjs_" % c,
+                       input={"class": c})
+        if refused:
+            ck.witness("C11:info-member-refused-by-factory", "%s: info() lists %s but component_factory refuses it as a keyword (%s)"
+                       % (c, sorted(set(x[0] for x in refused))[:6], refused[0][2]), input={"class": c, "keyword": refused[0][0]},
+                       expected="accepted", observed=refused[:4])
+        if r.get("nonmembers_accepted_count"):
+            k, i, e = r["nonmembers_accepted"][0]
+            ck.witness("C11:non-member-keyword-accepted", "component_factory(%s, %s=..) (%s form, %s) %s although info() of %s does not "
+                       "list %r (%d such keywords derived from the member names)"
+                       % (repr(c) if i % 2 == 0 else c, k, "string" if i % 2 == 0 else "class", "class method" if i % 4 < 2 else "neuroml.utils",
+                          "returns a component" if e is None else "raises " + e, c, k, r["nonmembers_accepted_count"]),
+                       input={"class": c, "keyword": k, "form": "str" if i % 2 == 0 else "class"}, expected="ValueError: not a permitted argument",
+                       observed=[x[0] for x in r["nonmembers_accepted"]])
+    ck.extra["acceptance_classes"] = len(res.get("acceptance") or [])
+
+
 def icase_coq(r):
     return "{| ic_cls := %s; ic_info := %s; ic_list := %s; ic_parents := %s; ic_sig := %s |}" % (
         coq_str(r["cls"]), coq_list([coq_str(x) for x in r["info"]]), coq_list([coq_str(x) for x in r["list"]]),
@@ -486,8 +521,11 @@ def run(ck):
     gen = gdsgen.Gen(T, ck.rng)
     cases = make_histories(ck, gen, mir, ck.n(30, 300)) + make_idcases(ck, gen, mir, ck.n(16, 200))
     order = {c: T.field_order(c) for c in T.order}
-    res = ck.impl("c11_impl.py", {"order": order, "classes": mir.order, "idcases": cases}, timeout=1500)
+    res = ck.impl("c11_impl.py", {"order": order, "classes": mir.order, "idcases": cases,
+                                  "acceptance": {"names": {c: [m["name"] for m in mir.members(c)] for c in mir.order},
+                                                 "exhaustive": ck.tier == "thorough"}}, timeout=1500)
     ok_res = introspection(ck, mir, S, res)
+    acceptance(ck, mir, res)
     info_diff(ck, ok_res)
     idcases(ck, mir, cases, res["idcases"])
     ck.extra["exhaustive_over_classes"] = True
